@@ -87,9 +87,11 @@ Ltac prim_solve :=
 Lemma exec1_prims s t held i : prims t s (fst (exec1 s t held i)).
 Proof.
   unfold exec1. destruct (get s (self_of t)) as [x|] eqn:Hx; [|cbn; prim_solve].
-  destruct i; cbn [fst]; try prim_solve.
+  destruct i as [sys to sender m|sys to sender m|to e| |sys tos sender m|c d rem done| | | |a|m acts r| |ty payload|poison|who| | | | |c d targets|o| ];
+    cbn [fst]; try prim_solve.
+  - (* ISupPause *) destruct rem; cbn [fst]; prim_solve.
   - (* IAct *)
-    destruct a; cbn [fst]; try prim_solve.
+    destruct a as [r tag acts|tag acts|sp|r poison| |n| |r|r|ty|ty| |ty payload|mode discard|discard]; cbn [fst]; try prim_solve.
     + (* ASpawn *)
       assert (Hsp : forall st : astate,
         prims t s (fst (
